@@ -787,6 +787,167 @@ func c13WrongType(rng *rand.Rand, v any) any {
 	}
 }
 
+// c13Hostile is the pool of odd string contents (class, value).  The classes
+// appear in violation keys.
+var c13Hostile = []struct{ class, val string }{
+	{"empty", ""},
+	{"whitespace", " "}, {"whitespace", "\t"}, {"whitespace", "  \t "}, {"whitespace", "\u00a0"}, {"whitespace", "\n"}, {"whitespace", "\r\n"},
+	{"padded", " lead"}, {"padded", "trail "}, {"padded", " quic://h "}, {"padded", "\t#x"},
+	{"comment", "#"}, {"comment", " # comment"}, {"comment", "#comment"}, {"comment", "# quic://h"}, {"comment", "  # quic://h"},
+	{"bracket", "[/"}, {"bracket", "[/a/]"}, {"bracket", "[/a/]b"}, {"bracket", "[//]"}, {"bracket", "[/]/]"}, {"bracket", "[/a/]/]x"},
+	{"bracket", "[/a/]quic://"}, {"bracket", "[/a/]quic://h"}, {"bracket", "[/a/] quic://h"}, {"bracket", "[/a/]#"},
+	{"quic-url", "quic://"}, {"quic-url", "quic://h"}, {"quic-url", "quic://h:"}, {"quic-url", "quic://h:784"}, {"quic-url", "quic://[::1]"},
+	{"quic-url", "quic://[::1]:"}, {"quic-url", "quic://[::1"}, {"quic-url", "quic://%zz"}, {"quic-url", "quic://h/path?q=1#f"},
+	{"quic-url", "quic://u:p@h"}, {"quic-url", "QUIC://H"}, {"quic-url", "quic:h"}, {"quic-url", "quic://h:65536"}, {"quic-url", "quic://:"},
+	{"url", "tls://"}, {"url", "://"}, {"url", "https://"}, {"url", "a://b://c"}, {"url", "sdns://"},
+	{"hostport", "h:0"}, {"hostport", "h:65536"}, {"hostport", ":"}, {"hostport", ":53"}, {"hostport", "[::]:"}, {"hostport", "1.2.3.4:"},
+	{"ip", "::"}, {"ip", "0.0.0.0"}, {"ip", "999.1.1.1"}, {"ip", "1.2.3"}, {"ip", "::ffff:1.2.3.4"}, {"ip", "fe80::1%eth0"}, {"ip", "1.2.3.4/24"},
+	{"punctuation", "a b"}, {"punctuation", "."}, {"punctuation", ".."}, {"punctuation", "|.^"}, {"punctuation", "-"}, {"punctuation", "/"},
+	{"punctuation", "\\"}, {"punctuation", "*"}, {"punctuation", "@"}, {"punctuation", "%"}, {"punctuation", "`"},
+	{"path", "/abs/path"}, {"path", "C:\\x\\y"}, {"path", "../x"}, {"path", "file:///x"},
+	{"yaml-syntax", "- a"}, {"yaml-syntax", "a: b"}, {"yaml-syntax", "'"}, {"yaml-syntax", "\""}, {"yaml-syntax", "{"}, {"yaml-syntax", "&a"},
+	{"yaml-syntax", "*a"}, {"yaml-syntax", "!!str"}, {"yaml-syntax", "|"}, {"yaml-syntax", ">"}, {"yaml-syntax", "? x"}, {"yaml-syntax", "---"},
+	{"scalar-like", "null"}, {"scalar-like", "~"}, {"scalar-like", "true"}, {"scalar-like", "1e3"}, {"scalar-like", "0"}, {"scalar-like", "-1"},
+	{"scalar-like", "0x10"}, {"scalar-like", "1:20"}, {"scalar-like", "2001-01-01"}, {"scalar-like", ".inf"}, {"scalar-like", "NaN"},
+	{"duration-like", "0"}, {"duration-like", "h"}, {"duration-like", "-1h"}, {"duration-like", "1d"}, {"duration-like", "9999999999h"},
+	{"non-utf8", "\xff\xfe"}, {"non-utf8", "a\xc3"}, {"non-utf8", `\xff\xfe`}, {"non-utf8", "\ufeff"}, {"control", "\x00"}, {"control", "a\x00b"}, {"control", "\x1b[0m"},
+	{"long", strings.Repeat("x", 10000)}, {"long", "quic://" + strings.Repeat("h", 10000)}, {"whitespace", strings.Repeat(" ", 10000)},
+	{"long", "[/" + strings.Repeat("a/", 5000) + "]quic://h"},
+}
+
+// c13HostileCore are the values the quick tier applies to every scalar target
+// (the whole pool is used for "only item" lists, by the random phase and by
+// the thorough tier).
+var c13HostileCore = map[string]bool{
+	"": true, " ": true, "\t": true, "  \t ": true, "\u00a0": true, "\n": true, " lead": true, "trail ": true,
+	"#": true, " # comment": true, "#comment": true, "  # quic://h": true,
+	"[/": true, "[/a/]": true, "[/a/]b": true, "[/a/]quic://": true, "[/]/]": true,
+	"quic://": true, "quic://h": true, "quic://h:": true, "quic://[::1]": true, "quic://[::1": true, "quic://%zz": true, "QUIC://H": true,
+	"tls://": true, "://": true, "h:0": true, "h:65536": true, ":": true, "a b": true, ".": true, "::": true, "999.1.1.1": true,
+	"/abs/path": true, "- a": true, "a: b": true, "null": true, "~": true, "true": true, "1e3": true, "-1h": true,
+	"\xff\xfe": true, `\xff\xfe`: true, "\x00": true,
+}
+
+func c13IsCoreHostile(v string) bool {
+	return c13HostileCore[v] || (len(v) == 10000 && v[0] == 'x')
+}
+
+// c13StringTargets lists, below prefix, every string leaf and every list
+// whose items are all strings (possibly empty).
+func c13StringTargets(v any, prefix c13Path, depth int, scalars, lists *[]c13Path) {
+	if depth < 0 {
+		return
+	}
+	switch c := v.(type) {
+	case string:
+		*scalars = append(*scalars, append(c13Path{}, prefix...))
+	case []any:
+		allStr := true
+		for _, e := range c {
+			if _, isStr := e.(string); !isStr {
+				allStr = false
+			}
+		}
+		if allStr {
+			*lists = append(*lists, append(c13Path{}, prefix...))
+			return
+		}
+		for i, e := range c {
+			c13StringTargets(e, append(append(c13Path{}, prefix...), i), depth-1, scalars, lists)
+		}
+	case map[string]any:
+		keys := make([]string, 0, len(c))
+		for k := range c {
+			keys = append(keys, k)
+		}
+		sort.Strings(keys)
+		for _, k := range keys {
+			c13StringTargets(c[k], append(append(c13Path{}, prefix...), k), depth-1, scalars, lists)
+		}
+	}
+}
+
+// c13HostileItem returns list l with the hostile value at the position pos
+// ("only", "first", "middle", "last").
+func c13HostileItem(l []any, pos, val string) []any {
+	switch pos {
+	case "first":
+		if len(l) > 0 {
+			nl := append([]any{}, l...)
+			nl[0] = val
+			return nl
+		}
+	case "middle":
+		if len(l) > 1 {
+			nl := append([]any{}, l[:len(l)/2]...)
+			nl = append(nl, val)
+			return append(nl, l[len(l)/2:]...)
+		}
+	case "last":
+		if len(l) > 0 {
+			return append(append([]any{}, l...), val)
+		}
+	}
+	return []any{val}
+}
+
+// c13SectionOf maps the first elements of a path to the section and key names
+// used in c13Touches; rest is the index in p where the key's value starts.
+func c13SectionOf(p c13Path) (sect, key string, ok bool) {
+	str := func(i int) string {
+		if i < len(p) {
+			s, _ := p[i].(string)
+			return s
+		}
+		return ""
+	}
+	switch top := str(0); {
+	case top == "":
+		return "", "", false
+	case len(p) == 1:
+		return "", top, true
+	case top == "coredns" || top == "dns":
+		return "dns", str(1), str(1) != ""
+	case top == "clients":
+		if _, isIdx := p[1].(int); isIdx {
+			return "client", str(2), str(2) != ""
+		}
+		if str(1) == "persistent" && len(p) > 3 {
+			return "client", str(3), str(3) != ""
+		}
+		return "clients", str(1), str(1) != ""
+	case top == "filters":
+		return "filter", str(2), str(2) != ""
+	default:
+		if k := str(1); k != "" {
+			return top, k, true
+		}
+		// A top-level list or scalar.
+		return "", top, true
+	}
+}
+
+// c13ReadBySteps returns the steps after version from that concern the
+// setting at p (its own key, or the top-level key it lives under).
+func c13ReadBySteps(from int, p c13Path) (steps []int) {
+	sect, key, ok := c13SectionOf(p)
+	if !ok {
+		return nil
+	}
+	top, _ := p[0].(string)
+	for _, t := range c13Touches {
+		if t.step <= from {
+			continue
+		}
+		for _, k := range t.keys {
+			if (t.sect == sect && k == key) || (t.sect == "" && k == top) {
+				steps = append(steps, t.step)
+			}
+		}
+	}
+	return steps
+}
+
 // c13RandomMutation picks a path of root and an operator.  Returns ok=false
 // if nothing applicable was found.
 func c13RandomMutation(rng *rand.Rand, root map[string]any) (m c13Mut, ok bool) {
@@ -825,7 +986,23 @@ func c13RandomMutation(rng *rand.Rand, root map[string]any) (m c13Mut, ok bool) 
 	if len(p) == 1 && p[0] == "schema_version" {
 		return m, false
 	}
-	switch op := rng.Intn(16); op {
+	switch op := rng.Intn(19); op {
+	case 16, 17, 18:
+		// Hostile string content in a string leaf or a list of strings at or
+		// below p.
+		var scalars, lists []c13Path
+		c13StringTargets(cur, p, 3, &scalars, &lists)
+		h := c13Hostile[rng.Intn(len(c13Hostile))]
+		if n := len(scalars) + len(lists); n == 0 {
+			return m, false
+		} else if i := rng.Intn(n); i < len(scalars) {
+			return c13NewMut("hostile-string:"+h.class, scalars[i], false, h.val), true
+		} else {
+			lp := lists[i-len(scalars)]
+			l, _ := c13Get(root, lp)
+			pos := []string{"only", "first", "middle", "last"}[rng.Intn(4)]
+			return c13NewMut("hostile-item:"+h.class, lp, false, c13HostileItem(l.([]any), pos, h.val)), true
+		}
 	case 0:
 		return c13NewMut("delete", p, true, nil), true
 	case 1, 2:
@@ -1332,7 +1509,10 @@ func c13CheckMoves(from int, in, out map[string]any) (losses []c13Loss, compared
 					continue
 				}
 				bs, _ := bl[i].(string)
-				if bs != as && !(strings.Contains(as, "quic://") && strings.Replace(bs, ":784", "", 1) == as) {
+				if strings.Contains(strings.ToLower(as), "quic:") {
+					continue // step 10 may rewrite QUIC URLs (port added, URL re-serialised)
+				}
+				if bs != as {
 					bad("dns."+k+"[]", fmt.Sprintf("item %d was %q, is %q", i, as, bs))
 				}
 			}
@@ -2054,11 +2234,103 @@ func TestVerifC13(t *testing.T) {
 			}
 		}
 	}
-	rep.EventN("systematic_cases", len(cases))
+	// Phase A3: hostile string contents, systematically: in the synthetic
+	// document of version f, every string leaf and every list of strings under
+	// a key that a pending step concerns gets every value of c13Hostile (lists:
+	// as the only item and at a rotating / every position).  Quick: the core
+	// values for f = s-1 where s is a step that concerns the key, and for lists
+	// also f = 0 with the whole pool as the only item; thorough: the whole pool
+	// at every f and every position (six split points per document).
+	nA2 := len(cases)
+	positions := []string{"first", "middle", "last"}
+	for _, s := range structured {
+		if !strings.HasPrefix(s.Name, "full@") {
+			continue
+		}
+		root := c13DecodeSeed(s)
+		from := c13StatedVersion(root)
+		if from < 0 || from >= c13Last {
+			continue
+		}
+		var pre []c13Mut
+		if from < 5 {
+			pre = append(pre, c13NewMut("delete", c13Path{"auth_pass"}, true, nil))
+		}
+		var scalars, lists []c13Path
+		c13StringTargets(root, nil, 5, &scalars, &lists)
+		relevant := func(p c13Path, isList bool) bool {
+			steps := c13ReadBySteps(from, p)
+			if len(steps) == 0 {
+				return false
+			}
+			if thorough || (from == 0 && isList) {
+				return true
+			}
+			for _, st := range steps {
+				if st == from+1 {
+					return true
+				}
+			}
+			return false
+		}
+		addCase := func(m c13Mut, withPre bool) {
+			ms := []c13Mut{m}
+			if withPre {
+				ms = append(append([]c13Mut{}, pre...), m)
+			}
+			if c, ok := c13BuildCase(s, ms, false); ok {
+				c.Muts = []c13Mut{m}
+				add(c)
+				if thorough {
+					// Every relevant version and position is swept; six split
+					// points per document keep the tier within its budget.
+					c.SplitAll, c.MaxSplits = false, 6
+				}
+				rep.Event("systematic_hostile_string_cases")
+			}
+		}
+		for _, p := range scalars {
+			if !relevant(p, false) {
+				continue
+			}
+			isPass := len(p) == 1 && p[0] == "auth_pass"
+			for hi, h := range c13Hostile {
+				if isPass && hi%12 != 0 {
+					continue // every run hashes the password (~70 ms)
+				}
+				if !thorough && !c13IsCoreHostile(h.val) {
+					continue
+				}
+				addCase(c13NewMut("hostile-string:"+h.class, p, false, h.val), !isPass)
+			}
+		}
+		for _, p := range lists {
+			if !relevant(p, true) {
+				continue
+			}
+			l, _ := c13Get(root, p)
+			for hi, h := range c13Hostile {
+				ps := []string{"only", positions[(hi+from)%3]}
+				if thorough {
+					ps = []string{"only", "first", "middle", "last"}
+				}
+				if !thorough && !c13IsCoreHostile(h.val) && from != 0 {
+					continue
+				}
+				for _, pos := range ps {
+					if pos != "only" && (len(l.([]any)) == 0 || (!thorough && !c13IsCoreHostile(h.val))) {
+						continue
+					}
+					addCase(c13NewMut("hostile-item:"+h.class, p, false, c13HostileItem(l.([]any), pos, h.val)), true)
+				}
+			}
+		}
+	}
+	rep.EventN("systematic_cases", nA2)
 
 	// Phase B: random mutations.
 	nRandom := verifkit.Pick(4000, 100000)
-	hashBudget := verifkit.Pick(150, 600)
+	hashBudget := verifkit.Pick(60, 600)
 	for i := 0; i < nRandom; i++ {
 		s := structured[rng.Intn(len(structured))]
 		root := c13DecodeSeed(s)
